@@ -1,2 +1,45 @@
-(* C12 — placeholder *)
-From HC Require Import Base.
+(* C12 — secret key hygiene (pinned statements; proofs in CoreFacts.v).
+   Proved for every state: append on a core without secret key returns NotWritable and changes NOTHING (same
+   core, same disk, empty journal delta, no event); make_read_only on such a core returns false and changes
+   nothing; on a writer it erases the secret from the in-memory key pair and header whatever the outcome;
+   and — secret-freedom as non-interference — the whole outcome of make_read_only (new core, every byte of
+   the four files, journal, events, result) is the same for any two secret keys: so no byte it writes can
+   depend on the key. The rewritten header slots encode the key pair as the public key followed by a zero byte.
+   Partial: 'no file contains the key' additionally needs that the bytes written BEFORE (tree, bitfield, data,
+   entries) never contained it; the model never writes the secret anywhere but the header (by inspection of
+   enc_entry / node / page codecs); tools/c12.py searches the raw bytes of all four files for every 16-byte
+   window of the key and enumerates all crash points inside make_read_only. *)
+From HC Require Import Base NMap Codec Crypto FlatTree Storage Bitfield Oplog Merkle Core CoreFacts.
+
+Theorem C12_not_writable : forall cr f batch c w,
+  kp_secret (c_keypair c) = None -> core_append cr f batch c w = (c, w, Err NotWritable).
+Proof. exact append_not_writable. Qed.
+
+Theorem C12_second_call_noop : forall cr c w,
+  kp_secret (c_keypair c) = None -> core_make_read_only cr c w = (c, w, Ok false).
+Proof. exact make_read_only_noop. Qed.
+
+Theorem C12_secret_erased : forall cr c w c' w' r sk,
+  kp_secret (c_keypair c) = Some sk ->
+  core_make_read_only cr c w = (c', w', r) ->
+  kp_secret (c_keypair c') = None /\ kp_secret (hd_keypair (c_header c')) = None.
+Proof. exact make_read_only_erases. Qed.
+
+Theorem C12_secret_independent : forall cr c w s1 s2,
+  core_make_read_only cr (with_secret c (Some s1)) w = core_make_read_only cr (with_secret c (Some s2)) w.
+Proof. exact make_read_only_secret_independent. Qed.
+
+Theorem C12_header_without_secret : forall h,
+  kp_secret (hd_keypair h) = None ->
+  enc_header h =
+    [1; 6] ++ hd_key h ++ ([0; 0; 1] ++ [0] ++ hd_ns h ++ hd_mpk h) ++
+    (enc_buffer (kp_public (hd_keypair h)) ++ [0]) ++
+    [0] ++ enc_header_tree (hd_tree h) ++ [0] ++ enc_uint (hd_contig h).
+Proof. exact enc_header_secret_none. Qed.
+
+Print Assumptions C12_not_writable.
+Print Assumptions C12_second_call_noop.
+Print Assumptions C12_secret_erased.
+Print Assumptions C12_secret_independent.
+Print Assumptions C12_header_without_secret.
+Print Assumptions toy_read_only.
